@@ -450,6 +450,55 @@ fn far_line_cases() -> Vec<Case> {
     out
 }
 
+
+/// Error classes declared by the program, one to three levels below each built-in error class: an instance
+/// thrown and not caught is reported under its own class (the class a handler observes with `type`), with
+/// its message, whatever it derives from and however deep; also thrown from a function, through a finally
+/// block, and as the context-less instance of a class without constructor arguments.
+fn user_error_classes() -> Vec<Case> {
+    let mut out = Vec::new();
+    for base in ["Error", "RuntimeError", "TypeError", "ValueError", "IndexError", "NameError", "AttributeError", "ImportError"] {
+        for depth in 1..=3usize {
+            for shape in 0..4usize {
+                let names = ["AppError", "ParseError", "DigitError"];
+                let mut prog: Vec<Stmt> = Vec::new();
+                for level in 0..depth {
+                    let parent = if level == 0 { base } else { names[level - 1] };
+                    prog.push(class_stmt(names[level], Some(parent), None, vec![method(FnKind::Ctor, "new", &["c"], vec![expr_stmt(Expr::SuperInvoke("new".into(), vec![var("c")]))])]));
+                }
+                let leaf = names[depth - 1];
+                let thrown = invoke(var(leaf), "new", vec![s(&format!("{} raised at depth {}", leaf, depth))]);
+                // the handler's view first
+                prog.push(st(StmtKind::Try(
+                    vec![st(StmtKind::Throw(thrown.clone()))],
+                    Some(("e".into(), vec![print_stmt(call(var("type"), vec![var("e")])), print_stmt(get(var("e"), "context")), print_stmt(invoke(var("e"), "derives", vec![var(base)])), print_stmt(invoke(var("e"), "derives", vec![var("Error")]))])),
+                    None,
+                )));
+                match shape {
+                    0 => prog.push(st(StmtKind::Throw(thrown))),
+                    1 => {
+                        prog.push(fn_stmt(func("raise", &[], vec![pad(1), st(StmtKind::Throw(thrown))])));
+                        prog.push(pad(2));
+                        prog.push(expr_stmt(call(var("raise"), vec![])));
+                    }
+                    2 => {
+                        prog.push(fn_stmt(func("raise", &[], vec![st(StmtKind::Try(vec![st(StmtKind::Throw(thrown))], None, Some(vec![print_stmt(s("cleanup"))])))])));
+                        prog.push(expr_stmt(call(var("raise"), vec![])));
+                    }
+                    _ => {
+                        // rethrown by a handler
+                        prog.push(st(StmtKind::Try(vec![st(StmtKind::Throw(thrown))], Some(("again".into(), vec![print_stmt(s("passing it on")), st(StmtKind::Throw(var("again")))])), None)));
+                    }
+                }
+                let mut c = Case::new("R_program_declared_error_classes", prog);
+                c.opts = CmpOpts { trace: true, kind: false };
+                out.push(c);
+            }
+        }
+    }
+    out
+}
+
 fn compile_error_lines(ctx: &Ctx, report: &mut Report) -> usize {
     let base = base_lines();
     // statement starts (index into `base`, 0-based) where a new statement may begin
@@ -638,11 +687,11 @@ pub fn run(ctx: &Ctx) -> Report {
     let hooks = Hooks { attribute: &|_c, _m, _o, _mm| None, nontrivial: &|_c, m| matches!(&m.outcome, Outcome::Uncaught(u) if u.trace.len() >= 2) || !m.out.is_empty(), fuel: 2_000_000 };
     // (plus C08's programs in which one function is active twice with an outcome waiting in the outer
     // activation's finally block: the uncaught variants' reports are compared entry by entry)
-    let stats = mcheck::run(ctx, runtime_cases(thorough).into_iter().chain(far_line_cases()).chain(crate::c08::recursion_from_finally()), &hooks);
+    let stats = mcheck::run(ctx, runtime_cases(thorough).into_iter().chain(far_line_cases()).chain(user_error_classes()).chain(crate::c08::recursion_from_finally()), &hooks);
     mcheck::fill_report(
         &mut report,
         &stats,
-        "R: every call chain of depth 0-3/4 over link kinds {function, method, static method, lambda, constructor, map callback, reduce callback, fiber body} with the failing statement (12 kinds: throws of 4 value kinds, 6 failing built-ins, throwing callees) at the bottom, in place, inside a module function or as a module body; one statement per line with padding so every line differs. Uncaught variant: class, text (where the model defines it), error kind and the full trace (one entry per active call, innermost first; library frames by name only) must equal M-eval's; caught variant: the handler sees the same class. The same with an earlier, completely handled exception (7 shapes: thrown and caught in place, thrown by a callee, thrown by a function of another module, raised by a built-in, caught after passing a finally block, caught in a loop, handled in another fiber that ran to its end) placed in each active frame of every chain up to depth 2/3 before the failing statement. The same with the call or failing statement at each position wrapped in one or two nested try/finally statements, so that the uncaught error passes through finally blocks (the report lists the calls still active when it is made, each with the line of the statement it was executing when the error was raised). Plus caught==uncaught on the implementation for 26 failing statements including host natives of every ErrorKind, compile-error lines for a stray token before every statement, and the same for a module that does not compile: every attempt to import it (seven placements in one program, then two more programs on the same interpreter) reports ImportError with the module's name, the line and the token; a missing module likewise. Plus the 240 programs of C08's family `recursion_from_a_finally_block` (one function active twice, the outer activation in its finally block with an outcome waiting): class, message and trace of the uncaught variants. Plus every fortieth program of the run-time families placed far down a long file - its first statement (and that of every module) on line 255, 256, 32766..32768, 65534..65537, 70000 and 131071 - and compile errors on such lines, and compile errors further down a file whose first string has an escape sequence cut off by the end of its line. non-trivial = a trace of at least two entries, or output.",
+        "R: every call chain of depth 0-3/4 over link kinds {function, method, static method, lambda, constructor, map callback, reduce callback, fiber body} with the failing statement (12 kinds: throws of 4 value kinds, 6 failing built-ins, throwing callees) at the bottom, in place, inside a module function or as a module body; one statement per line with padding so every line differs. Uncaught variant: class, text (where the model defines it), error kind and the full trace (one entry per active call, innermost first; library frames by name only) must equal M-eval's; caught variant: the handler sees the same class. The same with an earlier, completely handled exception (7 shapes: thrown and caught in place, thrown by a callee, thrown by a function of another module, raised by a built-in, caught after passing a finally block, caught in a loop, handled in another fiber that ran to its end) placed in each active frame of every chain up to depth 2/3 before the failing statement. The same with the call or failing statement at each position wrapped in one or two nested try/finally statements, so that the uncaught error passes through finally blocks (the report lists the calls still active when it is made, each with the line of the statement it was executing when the error was raised). Plus caught==uncaught on the implementation for 26 failing statements including host natives of every ErrorKind, compile-error lines for a stray token before every statement, and the same for a module that does not compile: every attempt to import it (seven placements in one program, then two more programs on the same interpreter) reports ImportError with the module's name, the line and the token; a missing module likewise. Plus the 240 programs of C08's family `recursion_from_a_finally_block` (one function active twice, the outer activation in its finally block with an outcome waiting): class, message and trace of the uncaught variants. Plus every fortieth program of the run-time families placed far down a long file - its first statement (and that of every module) on line 255, 256, 32766..32768, 65534..65537, 70000 and 131071 - and compile errors on such lines; error classes declared by the program one to three levels below each of eight built-in error classes, thrown uncaught in place, from a function, through a finally block and rethrown by a handler: reported under their own class with their message; and compile errors further down a file whose first string has an escape sequence cut off by the end of its line. non-trivial = a trace of at least two entries, or output.",
         json!({"chain_depth": if thorough { 4 } else { 3 }, "link_kinds": LINKS.len(), "failing_statements": FAILS.len()}),
     );
     let (n_ceq, _bad) = caught_equals_uncaught(ctx, &mut report);
